@@ -3,7 +3,7 @@ PROP = "C17"
 ENGINE = "meta"
 LEAN_MODULES = ["RtoscModel.Props.C17"]
 THEOREMS = ["Rtosc.Meta.iterate_serialize", "Rtosc.Meta.get_first", "Rtosc.Meta.find_presence",
-            "Rtosc.Meta.length_serialize"]
+            "Rtosc.Meta.length_serialize", "Rtosc.Meta.macros_serialize"]
 HARNESS = {"src": ["meta.cpp"]}
 RULE = ("blocks are serialised from generated entry lists: mostly 1..8 entries with keys of 1..3 and values of 0..4 bytes "
         "over the alphabet a b c A B C : = space 0 1 and the bytes 01 7f 80 e9 ff (letter-case pairs, bytes >= 0x80), "
@@ -24,10 +24,12 @@ ASSUMPTIONS = ["entries are well-formed: key non-empty, NUL-free, not starting w
                "key/value entries: blocks using it are outside the statement; for them, as for every other block outside "
                "the statement (empty, NULL, no leading ':', extra NULs, truncated), the check only demands that the readers "
                "do not crash and that model and implementation agree on whether a read past the block happens",
-               "the tie between the macros and the specification `serialize` is established on the fixed port table of "
-               "harness/meta.cpp (every metadata-producing macro of the header except rSpecial is used there), not proved"]
+               "macros_serialize is about the macro texts as transcribed in RtoscModel/MetaMacros.lean (rProp rMap rDoc rOpt "
+               "rPreset rSpecial); that the compiled header produces these bytes is established by test on the fixed port "
+               "table of harness/meta.cpp (op M; every metadata-producing macro of the header is used there), not proved"]
 TRUSTED = ["hand-written model RtoscModel/Meta.lean of metaiterator_advance, MetaIterator::operator++, "
            "MetaContainer::begin/find/length/operator[], Port::meta()",
+           "transcription RtoscModel/MetaMacros.lean of the macro texts of include/rtosc/port-sugar.h",
            "the list FIXED in tools/props/c17.py saying which entries each macro invocation of harness/meta.cpp stands for"]
 
 LETTERS = b"abcABC"
@@ -347,7 +349,8 @@ def oracle(op, out):
 
 
 LEVEL_TEXT = ("Lean theorems (iterate_serialize, get_first, find_presence, length_serialize) hold for every well-formed "
-              "metadata block of any size; the model they are about is compared with the compiled implementation on "
+              "metadata block of any size, macros_serialize says that rProp/rMap/rDoc/rOptions/rPreset texts written side by "
+              "side are such a block; the model they are about is compared with the compiled implementation on "
               "thousands of generated blocks per run (up to > 64 KiB), the specification `serialize` is compared with what the "
               "real port-sugar.h macros emit on a fixed port table, and the property is also evaluated directly on the "
               "implementation's output")
